@@ -22,3 +22,5 @@ INVARIANT InvC18
 INVARIANT InvC16
 PROPERTY ActC16
 PROPERTY ActC16Join
+PROPERTY ActC06
+INVARIANT DebugStop
